@@ -1,6 +1,6 @@
 """C12 — result accessors expose exactly the produced shards; drop starts a new round."""
 import re
-from . import core, taint, witness, resetrules, c06
+from . import core, taint, witness, resetrules, c06, roles as roles_mod
 from .core import hcanon, hshow
 
 EXPLANATION = (
@@ -82,14 +82,13 @@ def sf(name):
 
 
 def accessors(ctx, facts, cfg):
-    spec = {
-        'rate::encoder_work::EncoderWork::recovery': dict(count='recovery_count', base=None),
-        'rate::decoder_work::DecoderWork::restored_original': dict(count='original_count', base='original_base_pos'),
-    }
-    for p, sp in spec.items():
-        fn = ctx.anchor(facts, p, 'C12.a-accessor-atoms')
+    RL = roles_mod.roles(facts)
+    spec = {'enc': dict(count='recovery_count', base=None), 'dec': dict(count='original_count', base='original_base_pos')}
+    for side, sp in spec.items():
+        fn = RL.get(ctx, side + '.accessor', 'C12.a-accessor-atoms', cfg)
         if fn is None:
             continue
+        p = fn.path
         somes, nones = [], []
 
         def visit(e, conds, env):
@@ -100,7 +99,7 @@ def accessors(ctx, facts, cfg):
             ctx.violation('C12.a-accessor-atoms', 'some-sites', '%s has %d `Some(..)` exits, expected one' % (p, len(somes)), site=fn.span, fn=p, cfg=cfg)
             continue
         e, conds, env = somes[0]
-        atoms = core.flatten_conds(conds, env)
+        atoms = [(RL.norm(c, p), pol) for c, pol in core.flatten_conds(conds, env)]
         idx = ('local', 'index')
         pos = idx if sp['base'] is None else core.norm_bin('Add', sf(sp['base']), idx)
         want = {('lt', idx, sf(sp['count']))}
@@ -133,7 +132,7 @@ def accessors(ctx, facts, cfg):
         if extra:
             problems.append('extra conditions: %s' % extra)
         # payload: &self.shards[pos].as_flattened()[..self.shard_bytes]
-        payload = hcanon(e['args'][0], env)
+        payload = RL.norm(hcanon(e['args'][0], env), p)
         ptxt = repr(payload)
         want_idx = ('index', sf('shards'), pos)
         if repr(want_idx) not in ptxt:
@@ -142,7 +141,7 @@ def accessors(ctx, facts, cfg):
         ok_cut = False
         for (n, _) in rng:
             st, en, inc = core.is_range_struct(n)
-            if st is None and en is not None and hcanon(en, env) == sf('shard_bytes') and not inc:
+            if st is None and en is not None and RL.norm(hcanon(en, env), p) == sf('shard_bytes') and not inc:
                 ok_cut = True
         if not ok_cut:
             problems.append('exposed slice is not cut to ..self.shard_bytes')
@@ -151,8 +150,8 @@ def accessors(ctx, facts, cfg):
         else:
             ctx.ok('C12.a-accessor-atoms', '%s@%s' % (p, cfg), {'some_iff': [('' if pol else 'not ') + hshow(c) for c, pol in atoms], 'slice': 'shards[%s][..shard_bytes]' % hshow(pos)})
     # forwarding of the public methods
-    fwd = {"encoder_result::EncoderResult::<'_>::recovery": ('rate::encoder_work::EncoderWork::recovery', True),
-           "decoder_result::DecoderResult::<'_>::restored_original": ('rate::decoder_work::DecoderWork::restored_original', True),
+    fwd = {"encoder_result::EncoderResult::<'_>::recovery": (RL.fn.get('enc.accessor'), True),
+           "decoder_result::DecoderResult::<'_>::restored_original": (RL.fn.get('dec.accessor'), True),
            "encoder_result::EncoderResult::<'_>::recovery_iter": ("encoder_result::Recovery::<'a>::new", False),
            "decoder_result::DecoderResult::<'_>::restored_original_iter": ("decoder_result::RestoredOriginal::<'a>::new", False)}
     for p, (target, with_idx) in fwd.items():
@@ -196,11 +195,15 @@ def accessors(ctx, facts, cfg):
 
 
 def iterators(ctx, facts, cfg):
-    specs = [("<encoder_result::Recovery<'a> as std::iter::Iterator>::next", 'rate::encoder_work::EncoderWork::recovery', 'recovery'),
-             ("<decoder_result::RestoredOriginal<'a> as std::iter::Iterator>::next", 'rate::decoder_work::DecoderWork::restored_original', 'restored')]
+    RL = roles_mod.roles(facts)
+    specs = [("<encoder_result::Recovery<'a> as std::iter::Iterator>::next", RL.fn.get('enc.accessor'), 'recovery'),
+             ("<decoder_result::RestoredOriginal<'a> as std::iter::Iterator>::next", RL.fn.get('dec.accessor'), 'restored')]
     for p, accessor, kind in specs:
         fn = ctx.anchor(facts, p, 'C12.b-iterators')
         if fn is None:
+            continue
+        if accessor is None:
+            ctx.violation('C12.b-iterators', 'role-missing:accessor', 'unrecognised idiom: %s' % (RL.problems[:1] or ['accessor of the work object not identified'])[0], fn=p, cfg=cfg)
             continue
         problems = []
         assigns = []     # (target canon, value node, conds, env, op)
@@ -320,19 +323,19 @@ def iterators(ctx, facts, cfg):
                 # while cond: first `if` inside loop body
                 conds_in = core.hir_find(loops[0], lambda n: n.get('k') == 'if')
                 wc = hcanon(conds_in[0][0]['cond'], {}) if conds_in else None
+                getter = facts.fns.get(wc[3][1]) if (wc is not None and wc[0] == 'bin' and isinstance(wc[3], tuple) and wc[3][0] == 'call' and isinstance(wc[3][1], str)) else None
+                getter_ok = False
+                if getter is not None and getter.impl_self_adt == roles_mod.DEC_WORK:
+                    getter_ok = any(st['k'] == 'assign' and st['lhs']['l'] == 0 and
+                                    RL.norm(getter.body.canon_rv(st['rv']), side='dec') == ('field', ('deref', ('param', 'self')), 'original_count')
+                                    for bb in getter.body.blocks for st in bb['stmts'])
                 okw = wc is not None and wc[0] == 'bin' and wc[1] == 'Lt' and wc[2] == ('local', 'index') and \
-                    wc[3][0] == 'call' and str(wc[3][1]).endswith('DecoderWork::original_count') and wc[3][2][0] == sf('work')
+                    wc[3][0] == 'call' and getter_ok and wc[3][2][0] == sf('work')
                 if not okw:
                     problems.append('scan loop condition is %s, expected index < self.work.original_count()' % (hshow(wc) if wc else None))
                 incs = [a for a in assigns if a[0] == ('local', 'index')]
                 if not incs or not all(a[4] in ('+', '+=') and hcanon(a[1], {}) == ('const', 1) for a in incs):
                     problems.append('scan variable is not advanced by exactly 1')
-            oc = facts.fns.get('rate::decoder_work::DecoderWork::original_count')
-            if oc is not None:
-                okoc = any(st['k'] == 'assign' and st['lhs']['l'] == 0 and oc.body.canon_rv(st['rv']) == ('field', ('deref', ('param', 'self')), 'original_count')
-                           for bb in oc.body.blocks for st in bb['stmts'])
-                if not okoc:
-                    problems.append('DecoderWork::original_count() does not return self.original_count')
         if problems:
             for pr in sorted(set(problems)):
                 ctx.violation('C12.b-iterators', re.sub(r'[^A-Za-z]+', '-', pr)[:60], '%s: %s' % (p, pr), site=fn.span, fn=p, cfg=cfg)
